@@ -64,33 +64,49 @@ def install_fake_s3(fake):
 
 # ---- running the implementation -----------------------------------------------------------------
 
-def impl_collection(texts, allow, strict, via='strings', keys=None):
+_FILES_DIR = None
+
+
+def _files_dir():
+    global _FILES_DIR
+    if _FILES_DIR is None or not os.path.isdir(_FILES_DIR):
+        import atexit
+        _FILES_DIR = tempfile.mkdtemp(prefix='mrm-coll-files-')
+        atexit.register(shutil.rmtree, _FILES_DIR, True)
+    return _FILES_DIR
+
+
+def impl_collection(texts, allow, strict, via='strings', keys=None, page_size=2):
     """Build a MosCollection from `texts` (in the given order) and merge it.
     -> {'err', 'reader_ids', 'ro_msg_id', 'run': {'ro','warns','err'} | None, 'text'}"""
     from . import impl
     from mosromgr.moscollection import MosCollection
     out = {'err': None, 'reader_ids': [], 'ro_msg_id': None, 'run': None, 'text': None}
     tmp = None
-    impl.apply_cfg(impl.cfg_for(''.join(t[:80] for t in texts) + via + str(strict)))
+    impl.apply_cfg(impl.cfg_for(''.join(texts) + via + str(strict)))
     try:
         with warnings.catch_warnings():
             warnings.simplefilter('ignore')
             if via == 'strings':
                 mc = MosCollection.from_strings(list(texts), allow_incomplete=allow)
             elif via == 'files':
-                tmp = tempfile.mkdtemp(prefix='mrm-coll-')
+                # always the same few paths (rewritten for every collection, modification time preserved as a copy
+                # tool would): a collection is built from what the files hold NOW
+                d = _files_dir()
                 paths = []
                 for i, t in enumerate(texts):
-                    p = os.path.join(tmp, f'f{i:03d}.mos.xml')
-                    with open(p, 'w', encoding='utf-8') as f:
+                    p = os.path.join(d, f'f{i:03d}.mos.xml')
+                    with open(p, 'w', encoding='utf-8', newline='') as f:
                         f.write(t)
+                    os.utime(p, (1000000000, 1000000000))
                     paths.append(p)
                 mc = MosCollection.from_files(paths, allow_incomplete=allow)
             elif via == 's3':
-                keys = keys or [f'prefix/k{i:03d}.mos.xml' for i in range(len(texts))]
+                # key names are opaque: '+', '%xx' sequences, blanks and non-ASCII letters are part of the name
+                keys = keys or [f'prefix/k{i:03d}{["", "+a", "%25", "%2B b", " c", "é"][i % 6]}.mos.xml' for i in range(len(texts))]
                 objs = {k: t.encode('utf-8') for k, t in zip(keys, texts)}
                 objs['prefix/ignored.txt'] = b'not a mos file'
-                install_fake_s3(FakeS3(objs, page_size=2))
+                install_fake_s3(FakeS3(objs, page_size=page_size))
                 mc = MosCollection.from_s3(bucket_name='bucket', prefix='prefix/', allow_incomplete=allow)
             else:
                 raise ValueError(via)
@@ -238,6 +254,17 @@ def run_c09(tier, seed):
         docs = [TJ.to_text(ro_tree)] + [TJ.to_text(m) for _, m in plan] + [TJ.to_text(B.ro_delete(message_id='99'))]
         for strict in (False, True):
             jobs.append(('fault-then-valid: ' + name, docs, False, strict, 'strings' if pi % 5 else 'files'))
+    # one long collection: 140 messages of which 130 fail (every failure is reported, however many there are)
+    long_docs = [TJ.to_text(B.ro_doc([B.story('A', [B.item('a1')])], message_id='1'))]
+    for k in range(130):
+        long_docs.append(TJ.to_text([B.story_insert('ZZ', [B.story(f'N{k}')], message_id=str(10 + k)), B.item_delete('ZZ', ['a1'], message_id=str(10 + k)),
+                                     B.ea('SWAP', B.ABSENT, [B.ids('storyID', ['A', 'ZZ'])], message_id=str(10 + k))][k % 3]))
+    for k in range(10):
+        long_docs.append(TJ.to_text(B.story_append([B.story(f'G{k}')], message_id=str(500 + k))))
+    long_docs.append(TJ.to_text(B.ro_delete(message_id='900')))
+    long_docs += [TJ.to_text(B.ready_to_air(message_id=str(901 + k))) for k in range(5)]
+    jobs.append(('long collection with 135 failures', long_docs, False, False, 'strings'))
+    jobs.append(('long collection with 135 failures', long_docs, False, True, 'strings'))
     reqs = [model_req(docs, allow, strict) for (_, docs, allow, strict, _) in jobs]
     models = model_collection(reqs)
     for (hseed, docs, allow, strict, via), m in zip(jobs, models):
@@ -272,6 +299,28 @@ def run_c09(tier, seed):
     oc.rule = ('collections built from state-aware random histories (G-hist) x {strict, non-strict} x '
                '{allow_incomplete} x {strings, files, fake S3}; non-trivial = at least one message failed or warned')
     return oc
+
+
+def fault_collections_check(oc, tier):
+    """C05, "every sequence of such failures inside a non-strict collection merge": scripted collections in which
+    multi-element messages fail at their k-th element; after the non-strict merge the running order is exactly what
+    adding the non-failing messages one by one gives (a failed message leaves nothing behind - not even whitespace)."""
+    plans = hist_run._fault_then_valid_plans()
+    for pi, (name, ro_tree, plan) in enumerate(plans[::(3 if tier == 'quick' else 1)]):
+        for variant in range(2):
+            ro_t = ro_tree if variant == 0 else __import__('harness.elem_family', fromlist=['pretty']).pretty(ro_tree)   # compact / pretty-printed
+            docs = [TJ.to_text(ro_t)] + [TJ.to_text(m) for _, m in plan] + [TJ.to_text(B.ro_delete(message_id='99'))]
+            o = impl_collection(docs, False, False, via='strings')
+            hf = hand_fold(docs, False)
+            oc.evaluations += 1
+            oc.in_domain += 1
+            oc.count('fault-collections')
+            if o['err'] is not None or o['text'] != hf['text'] or o['run']['err'] != hf['err']:
+                oc.failing.append({'kind': 'collection', 'docs': docs, 'allow_incomplete': False, 'strict': False, 'via': 'strings',
+                                   'label': 'fault-then-valid collection: ' + name + (' (pretty-printed)' if variant else ''),
+                                   'spec': 'after a non-strict collection merge the running order is what adding the non-failing messages one by one gives: '
+                                           'a message that failed left nothing behind', 'impl': _brief(o), 'hand_fold': {'err': hf['err'], 'text': hf['text'][:1500]}})
+            oc.nontrivial.add(stable_hash(['fc', docs]))
 
 
 def _brief(o):
@@ -383,6 +432,31 @@ def run_c10(tier, seed):
                 oc.failing.append(dict(rec, spec='readers in ascending numeric message-ID order, for every ordering of the inputs',
                                        impl={'err': o['err'], 'reader_ids': o['reader_ids']}, expected={'reader_ids': expect_ids}))
             oc.nontrivial.add(stable_hash([pdocs, via]))
+    # equal-sized documents swapped between the same file names (a cache keyed by path, size and time would go stale)
+    eq = [TJ.to_text(B.ro_doc([B.story('A')], message_id='10'))] + [TJ.to_text(B.story_append([B.story(f'N{i}')], message_id=str(i))) for i in (11, 12, 13)]
+    for perm in itertools.permutations(range(4)):
+        pdocs = [eq[i] for i in perm]
+        o = impl_collection(pdocs, True, False, via='files')
+        oc.evaluations += 1
+        oc.in_domain += 1
+        oc.count('equal-size-files')
+        if o['err'] is not None or o['reader_ids'] != [11, 12, 13]:
+            oc.failing.append({'kind': 'collection-perm', 'docs': pdocs, 'via': 'files', 'keys': None, 'label': f'equal-sized documents, same file names, perm={perm}',
+                               'spec': 'readers in ascending numeric message-ID order for every ordering of the inputs', 'impl': {'err': o['err'], 'reader_ids': o['reader_ids']}})
+    # more than one S3 listing block: 1100 objects whose keys list lexicographically (1, 10, 100, 1000, 1001, ... 11, 110 ...)
+    many = list(range(2, 1101))
+    mdocs = {1: TJ.to_text(B.ro_doc([], message_id='1'))}
+    for i in many:
+        mdocs[i] = TJ.to_text(B.story_append([B.story(f'N{i}')], message_id=str(i)))
+    order = sorted(mdocs, key=str)                      # how S3 lists unpadded numeric names
+    o = impl_collection([mdocs[i] for i in order], True, False, via='s3', keys=[f'prefix/{i}.mos.xml' for i in order], page_size=1000)
+    oc.evaluations += 1
+    oc.in_domain += 1
+    oc.count('many-keys')
+    if o['err'] is not None or o['reader_ids'] != many:
+        oc.failing.append({'kind': 'collection-perm', 'docs': ['(1100 generated documents: roCreate 1, roStoryAppend 2..1100)'], 'via': 's3-many', 'keys': None,
+                           'label': '1100 S3 objects listed lexicographically', 'spec': 'readers in ascending numeric message-ID order, however many keys and pages',
+                           'impl': {'err': o['err'], 'first_out_of_order': next((a for a, b in zip(o['reader_ids'], many) if a != b), None)}})
     oc.exhaustive = False
     oc.extra['exhaustive_part'] = 'all permutations of each document list are enumerated (n <= 5 quick / 6 thorough: 720 sampled beyond); the lists themselves are sampled histories'
     oc.rule = ('every permutation (n <= %d) of the documents of small state-aware histories with message IDs of mixed '
@@ -400,7 +474,7 @@ def collection_stages(docs, strict):
     from mosromgr.moscollection import MosCollection, MosReader
     has_record = lambda ro: ro.xml.find('mosromgrmeta') is not None
     out = {}
-    impl.apply_cfg(impl.cfg_for(''.join(t[:80] for t in docs) + str(strict)))
+    impl.apply_cfg(impl.cfg_for(''.join(docs) + str(strict)))
     with warnings.catch_warnings():
         warnings.simplefilter('ignore')
         try:
@@ -562,7 +636,7 @@ def validate_obs(docs, allow):
     """Observation of MosCollection.from_strings under the current interpreter flags."""
     from . import impl
     from mosromgr.moscollection import MosCollection
-    impl.apply_cfg(impl.cfg_for(''.join(t[:80] for t in docs) + str(allow)))
+    impl.apply_cfg(impl.cfg_for(''.join(docs) + str(allow)))
     try:
         with warnings.catch_warnings():
             warnings.simplefilter('ignore')
@@ -593,6 +667,7 @@ def run_sub(flags, cases):
 
 
 def run_c11(tier, seed):
+    from . import impl
     oc = Outcome('C11')
     cases = c11_lists(tier)
     reqs = [model_req(c['docs'], c['allow'], True) for c in cases]
@@ -619,6 +694,40 @@ def run_c11(tier, seed):
         oc.nontrivial.add(h)
         if len(oc.samples) < 4 and len(oc.nontrivial) % 37 == 1:
             oc.samples.append({'label': c['label'], 'default': d, 'optimized': o, 'spec_accepts': accept})
+    # the same lists as FILES, always under the same few names in one directory (rewritten for every list) and named
+    # the ways a caller names files - bare, ./relative, absolute, dot-files: validation sees the current contents
+    tmp = tempfile.mkdtemp(prefix='mrm-c11-')
+    cwd0 = os.getcwd()
+    try:
+        os.chdir(tmp)
+        for k, (c, d) in enumerate(zip(cases, default)):
+            if k % 5:
+                continue
+            names = [['f%d.mos.xml', './f%d.mos.xml', os.path.join(tmp, 'f%d.mos.xml'), '.f%d.mos.xml', '../' + os.path.basename(tmp) + '/f%d.mos.xml'][(k // 5 + j) % 5] % j
+                     for j in range(len(c['docs']))]
+            for nme, t in zip(names, c['docs']):
+                with open(nme, 'w', encoding='utf-8') as f:
+                    f.write(t)
+            impl.apply_cfg(impl.cfg_for(''.join(c['docs']) + ''.join(names[:1])))
+            try:
+                with warnings.catch_warnings():
+                    warnings.simplefilter('ignore')
+                    from mosromgr.moscollection import MosCollection
+                    mc = MosCollection.from_files(names, allow_incomplete=c['allow'])
+                fo = {'err': None, 'ro_msg_id': mc.ro.message_id, 'reader_ids': [mr.message_id for mr in mc.mos_readers],
+                      'reader_types': [mr.mos_type.__name__ for mr in mc.mos_readers], 'ro_type': type(mc.ro).__name__}
+            except Exception as e:  # noqa: BLE001
+                fo = {'err': impl.err_name(e), 'ro_msg_id': None, 'reader_ids': []}
+            oc.evaluations += 1
+            oc.in_domain += 1
+            oc.count('as-files')
+            if fo != d:
+                oc.failing.append({'kind': 'validate', 'docs': c['docs'], 'allow_incomplete': c['allow'], 'label': c['label'] + ' (as files ' + ', '.join(names[:3]) + ')',
+                                   'as_files': names, 'spec': 'the same list supplied as files is accepted / rejected like the list of strings',
+                                   'impl': {'files': fo, 'strings': d}})
+    finally:
+        os.chdir(cwd0)
+        shutil.rmtree(tmp, ignore_errors=True)
     run_stage_checks(oc, 'C11', tier, seed)
     oc.exhaustive = True
     oc.extra['interpreters'] = ['default', 'python -O (fresh subprocess, sys.flags.optimize == 1 checked)']
